@@ -97,15 +97,60 @@ def translate_pick_width() -> typing.Tuple[str, typing.List[int]]:
 # base.j2
 # ---------------------------------------------------------------------------------------------------------------------
 
+def strip_comments(text: str) -> str:
+    """Template text without Jinja comments `{# .. #}` and without Python comments `# ..` (to the end of the line).  A real
+    tokenizer: Jinja expressions/statements and Python string literals (single, double, triple quoted, with escapes) are copied
+    verbatim, so a `#` inside them is not a comment and a statement after a comment can never be swallowed by a pattern."""
+    out: typing.List[str] = []
+    i, n = 0, len(text)
+    while i < n:
+        two = text[i:i + 2]
+        if two == '{#':
+            j = text.find('#}', i + 2)
+            if j < 0:
+                raise Closed('unterminated Jinja comment')
+            i = j + 2
+            out.append(' ')
+        elif two in ('{{', '{%'):
+            end = '}}' if two == '{{' else '%}'
+            j = text.find(end, i + 2)
+            if j < 0:
+                raise Closed('unterminated Jinja tag')
+            out.append(text[i:j + 2])
+            i = j + 2
+        elif text[i] in '\'"':
+            q = text[i] * 3 if text[i:i + 3] in ("\'\'\'", '"""') else text[i]
+            j = i + len(q)
+            while True:
+                if j >= n:
+                    raise Closed('unterminated string literal in the template')
+                if text[j] == '\\':
+                    j += 2
+                    continue
+                if text.startswith(q, j):
+                    break
+                j += 1
+            out.append(text[i:j + len(q)])
+            i = j + len(q)
+        elif text[i] == '#':
+            j = text.find('\n', i)
+            i = n if j < 0 else j
+        else:
+            out.append(text[i])
+            i += 1
+    return ''.join(out)
+
+
 def squash(s: str) -> str:
-    s = re.sub(r'\{#.*?#\}', '', s, flags=re.S)       # jinja comments
-    return ' '.join(s.split())
+    return ' '.join(strip_comments(s).split())
 
 
 def between(text: str, start: str, end: str, what: str) -> str:
+    """the region after the ONE occurrence of `start` up to the next `end` (a second definition of a macro would shadow the first
+    in Jinja: more than one occurrence fails closed)"""
+    if text.count(start) != 1:
+        raise Closed('%s: start marker occurs %d times' % (what, text.count(start)))
     i = text.find(start)
-    if i < 0:
-        raise Closed('%s: start marker not found' % what)
     j = text.find(end, i + len(start))
     if j < 0:
         raise Closed('%s: end marker not found' % what)
@@ -126,10 +171,16 @@ def b(x: bool) -> str:
 
 def scan_template() -> typing.Dict[str, str]:
     raw = gen.read_repo(BASE_J2)
+    cf = squash(raw)                     # comment-free, white space squashed: everything below works on this text
     facts: typing.Dict[str, str] = {}
+    for name in ('assign_array', 'data_schema', 'strict_type_annotation', 'relaxed_type_annotation', 'printable_field_representation'):
+        if len(re.findall(r'\{%-? macro ' + name + r'\(', cf)) != 1:
+            raise Closed('macro %s is not defined exactly once' % name)
+    if len(re.findall(r'\{%-? macro ', cf)) != 5:
+        raise Closed('base.j2 defines other macros than the five known ones')
 
     # ---- macro assign_array ---------------------------------------------------------------------------------------
-    m = squash(between(raw, '{%- macro assign_array(f, src) -%}', '{%- endmacro -%}', 'assign_array'))
+    m = between(cf, '{%- macro assign_array(f, src) -%}', '{%- endmacro -%}', 'assign_array')
     mm = re.search(r"if t is FixedLengthArrayType -%\} \{%- set cmp = '([^']*)' -%\} \{%- elif t is VariableLengthArrayType -%\} "
                    r"\{%- set cmp = '([^']*)' -%\} \{%- else -%\}\{%- assert False -%\} \{%- endif -%\}", m)
     if not mm:
@@ -139,22 +190,26 @@ def scan_template() -> typing.Dict[str, str]:
     if facts['t_cmp_fixed'] == 'CmpNone' or facts['t_cmp_var'] == 'CmpNone':
         raise Closed('assign_array: unknown comparison %r / %r' % (mm.group(1), mm.group(2)))
     if not re.search(r"\{%- if t\.string_like -%\} " + SRC + r" = " + SRC + r"\.encode\(\) if isinstance\(" + SRC + r", str\) else "
-                     + SRC + r" # Implicit string encoding \{% endif -%\}", m):
+                     + SRC + r" \{% endif -%\}", m):
         raise Closed('assign_array: implicit string encoding not recognised')
     # the three branches bind either `self._<f>` directly (shipped shape) or the local `_a_` that is range-checked and then
     # stored (shape of the F-PY-ARRELEM fix); one and the same target in all three
     mb = re.search(r"\{%- if t\.element_type is UnsignedIntegerType and t\.element_type\.bit_length <= (\d+) -%\} "
                    r"if isinstance\(" + SRC + r", \(bytes, bytearray\)\)( and len\(" + SRC + r"\)" + CMPCAP + r")?: "
-                   r"(?:# [^{]*?)?(self\._" + FID + r"|_a_) = _np_\.frombuffer\(" + SRC + ", " + NST + r"\) # type: ignore el \{% endif -%\}", m)
+                   r"(if not len\(" + SRC + r"\)" + CMPCAP + r": raise ValueError\(f'.*?'\) )?"
+                   r"(self\._" + FID + r"|_a_) = _np_\.frombuffer\(" + SRC + ", " + NST + r"\) el \{% endif -%\}", m)
     if not mb:
         raise Closed('assign_array: bytes fast path not recognised')
     facts['t_bytes_max_w'] = mb.group(1)
-    facts['t_len_bytes'] = b(mb.group(2) is not None)
-    local = mb.group(3) == '_a_'
+    if mb.group(2) is not None and mb.group(3) is not None:
+        raise Closed('assign_array: the bytes branch tests the length twice')
+    facts['t_len_bytes'] = b(mb.group(2) is not None or mb.group(3) is not None)
+    bytes_raise = mb.group(3) is not None          # the branch is taken by type alone and raises on an illegal length
+    local = mb.group(4) == '_a_'
     tgt = '_a_' if local else r"self\._" + FID
     rest = m[mb.end():]
     mn = re.match(r" if isinstance\(" + SRC + r", _np_\.ndarray\) and " + SRC + r"\.dtype == " + NST + r" and " + SRC + r"\.ndim == 1"
-                  r"( and " + SRC + r"\.size" + CMPCAP + r")?: # type: ignore (?:# [^{]*?)?" + tgt + " = " + SRC + r" else: ", rest)
+                  r"( and " + SRC + r"\.size" + CMPCAP + r")?: " + tgt + " = " + SRC + r" else: ", rest)
     if not mn:
         raise Closed('assign_array: ndarray fast binding not recognised')
     facts['t_len_nd'] = b(mn.group(1) is not None)
@@ -162,38 +217,51 @@ def scan_template() -> typing.Dict[str, str]:
     rmin = r"\{\{ t\.element_type\.inclusive_value_range\.min \}\}"
     rmax = r"\{\{ t\.element_type\.inclusive_value_range\.max \}\}"
     if not local:
-        ms = re.match(r"(?:# [^{]*?)?" + SRC + r" = _np_\.array\(" + SRC + ", " + NST + r"\)\.flatten\(\) "
-                      r"(if not " + SRC + r"\.size" + CMPCAP + r": (?:# [^{]*? )?raise ValueError\(f'.*?'\) )?self\._" + FID + " = " + SRC + " assert ", rest)
+        ms = re.match(r"" + SRC + r" = _np_\.array\(" + SRC + ", " + NST + r"\)\.flatten\(\) "
+                      r"(if not " + SRC + r"\.size" + CMPCAP + r": raise ValueError\(f'.*?'\) )?self\._" + FID + " = " + SRC + " assert ", rest)
         if not ms:
             raise Closed('assign_array: slow path not recognised')
         facts['t_len_slow'] = b(ms.group(1) is not None)
+        if bytes_raise:
+            raise Closed('assign_array: text guard in the pre-F-PY-ARRELEM shape')
+        facts['t_text_guard'] = 'false'
+        facts['t_precheck_nd_only'] = 'false'
         facts['t_arr_precheck'] = 'false'
         facts['arrelem_quirk'] = 'true'
     else:
-        ms = re.match(r"(?:# [^{]*?)?(\{%- if t\.element_type is IntegerType %\} _s_ = _np_\.asarray\(" + SRC + r"\) (?:# [^{]*? )?"
+        mg = re.match(r"if isinstance\(" + SRC + r", \(bytes, bytearray, str\)\): raise ValueError\(f'.*?'\) ", rest)
+        if mg:
+            rest = rest[mg.end():]
+        if bool(mg) != bytes_raise:
+            raise Closed('assign_array: the text guard is only half there (bytes branch raises: %s, conversion path rejects text: %s)'
+                         % (bytes_raise, bool(mg)))
+        facts['t_text_guard'] = b(bytes_raise)
+        ms = re.match(r"(\{%- if t\.element_type is IntegerType %\} _s_ = _np_\.asarray\(" + SRC + r"\) "
                       r"(?:if _s_\.size and _s_\.dtype\.kind in 'iufO' and not \(" + rmin + r" <= _s_\.min\(\) and _s_\.max\(\) <= " + rmax + r"\): "
-                      r"|(if _s_\.size and _s_\.dtype\.kind in 'iufO': _lo_, _hi_ = _s_\.min\(\), _s_\.max\(\) if _s_\.dtype\.kind != 'O': (?:# [^{]*? )?"
+                      r"|((?:if _s_\.size and _s_\.dtype\.kind in 'iufO': "
+                      r"|(if _s_\.size and \(_s_\.dtype\.kind in 'iuO' or \(_s_\.dtype\.kind == 'f' and isinstance\(" + SRC + r", _np_\.ndarray\)\)\): ))"
+                      r"_lo_, _hi_ = _s_\.min\(\), _s_\.max\(\) if _s_\.dtype\.kind != 'O': "
                       r"_lo_, _hi_ = _lo_\.item\(\), _hi_\.item\(\) if not \(" + rmin + r" <= _lo_ and _hi_ <= " + rmax + r"\): ))"
                       r"raise ValueError\(f'.*?'\) \{%- endif %\} )?_a_ = _np_\.array\(" + SRC + ", " + NST + r"\)\.flatten\(\) "
-                      r"(if not _a_\.size" + CMPCAP + r": (?:# [^{]*? )?raise ValueError\(f'.*?'\) )?"
+                      r"(if not _a_\.size" + CMPCAP + r": raise ValueError\(f'.*?'\) )?"
                       r"\{%- if t\.element_type is FloatType and t\.element_type\.bit_length < (\d+) %\} "
-                      r"_x_ = _np_\.abs\(_np_\.asarray\(" + SRC + r", _np_\.float64\)\) (?:# [^{]*? )?"
+                      r"_x_ = _np_\.abs\(_np_\.asarray\(" + SRC + r", _np_\.float64\)\) "
                       r"if \(_np_\.isfinite\(_x_\) & \(_x_ > " + rmax + r"\.0\)\)\.any\(\): raise ValueError\(f'.*?'\) \{%- endif %\} "
                       r"\{%- if t\.element_type is IntegerType and t\.element_type\.bit_length not in \(([0-9, ]+)\) %\} "
                       r"if _a_\.size and not \(" + rmin + r" <= int\(_a_\.min\(\)\) and int\(_a_\.max\(\)\) <= " + rmax + r"\): "
-                      r"raise ValueError\(f'.*?'\) \{%- endif %\} self\._" + FID + r" = _a_ (?:# [^{]*? )?assert ", rest)
+                      r"raise ValueError\(f'.*?'\) \{%- endif %\} self\._" + FID + r" = _a_ assert ", rest)
         if not ms:
             raise Closed('assign_array: element-checked slow path / element checks / final store not recognised')
         facts['t_arr_precheck'] = b(ms.group(1) is not None)
         facts['precheck_exact'] = b(ms.group(2) is not None)     # bounds compared as Python numbers (.item()), not in the source dtype
-        facts['t_len_slow'] = b(ms.group(3) is not None)
+        facts['t_precheck_nd_only'] = b(ms.group(3) is not None)  # float arm for ndarray sources only (lists are not inferred via float64)
+        facts['t_len_slow'] = b(ms.group(4) is not None)
         facts['arrelem_quirk'] = 'false'
-        facts['elem_float_below'] = ms.group(4)
-        facts['elem_std_widths'] = [int(x) for x in ms.group(5).replace(' ', '').split(',')]
+        facts['elem_float_below'] = ms.group(5)
+        facts['elem_std_widths'] = [int(x) for x in ms.group(6).replace(' ', '').split(',')]
 
     # ---- property setters -----------------------------------------------------------------------------------------
-    acc = between(raw, '@{{ f|id }}.setter', '{% endfor -%}', 'setter')
-    s = squash(acc)
+    s = between(cf, '@{{ f|id }}.setter', '{% endfor -%}', 'setter').strip()
     ms = re.match(r"def " + FID + r"\(self, x: \{\{ relaxed_type_annotation\(f\.data_type\) \}\}\) -> None: "
                   r"\{%- if f\.data_type is BooleanType %\}(.*?)\{%- elif f\.data_type is IntegerType %\}(.*?)"
                   r"\{%- elif f\.data_type is FloatType %\}(.*?)\{%- elif f\.data_type is ArrayType %\}(.*?)"
@@ -207,7 +275,7 @@ def scan_template() -> typing.Dict[str, str]:
         raise Closed('setter: branch structure not recognised')
     s_bool, s_int, s_float, s_arr, s_comp, s_tail = (g.strip() for g in ms.groups())
     doc = r'(?:""".*?""" )?'
-    if not re.fullmatch(r"self\._" + FID + r" = bool\(x\)(?: # .*)?", s_bool):
+    if not re.fullmatch(r"self\._" + FID + r" = bool\(x\)", s_bool):
         raise Closed('setter: boolean branch not recognised')
     rng = r"\{\{ f\.data_type\.inclusive_value_range\.min \}\}(\.0)? <= x <= \{\{ f\.data_type\.inclusive_value_range\.max \}\}(\.0)?"
     if '{%' in s_int:
@@ -219,7 +287,7 @@ def scan_template() -> typing.Dict[str, str]:
     else:
         raise Closed('setter: integer branch not recognised')
     mf = re.fullmatch(doc + r"\{%- if f\.data_type\.bit_length < (\d+) %\} (.*?) \{%- else %\} self\._" + FID
-                      + r" = float\(x\)(?: # [^{]*?)? \{%- endif %\}", s_float)
+                      + r" = float\(x\) \{%- endif %\}", s_float)
     if not mf:
         raise Closed('setter: float branch not recognised')
     facts['t_float_check_below'] = mf.group(1)
@@ -257,7 +325,7 @@ def scan_template() -> typing.Dict[str, str]:
     facts['t_union_clear_after'] = 'true'      # the clearing loop can only be recognised after the branches (see regex above)
 
     # ---- constructor ----------------------------------------------------------------------------------------------
-    ctor = squash(between(raw, '{%- if type.inner_type is not UnionType -%}', '{#-\n # FIELD ACCESSORS AND MUTATORS', 'constructor'))
+    ctor = between(cf, '{%- if type.inner_type is not UnionType -%}', '{%- for f in type.fields_except_padding %} @property', 'constructor').strip()
     parts = ctor.split('{%- else %} {%- for f in type.fields %}')   # struct part / union part
     if len(parts) != 2:
         raise Closed('constructor: struct/union split not recognised')
@@ -284,17 +352,26 @@ def scan_template() -> typing.Dict[str, str]:
         raise Closed('constructor: composite initialisation not recognised')
     facts['t_comp_isinstance'] = b(comp_setter)     # the constructor assigns through the setter in both forms
     mu = re.search(r"_init_cnt_: int = 0 \{% for f in type\.fields %\} if " + FID + r" is not None: _init_cnt_ \+= 1 self\." + FID + " = " + FID
-                   + r" # type: ignore \{% endfor %\} if _init_cnt_ == 0: .*? # Default initialization elif _init_cnt_ == 1: pass(?: # [^{]*?)? "
+                   + r" \{% endfor %\} if _init_cnt_ == 0: .*? elif _init_cnt_ == 1: pass "
                    r"else: (raise ValueError\(f?'.*?'\)|pass)", c_union)
     if not mu:
         raise Closed('constructor: union argument counting not recognised')
     facts['t_union_ctor_count'] = b(mu.group(1).startswith('raise'))
+    # ---- everything else of base.j2: pinned verbatim (comment-free), so that EVERY line is either scanned above or accounted for
+    rest_text = cf
+    for start, end, name in (('{%- macro assign_array(f, src) -%}', '{%- endmacro -%}', 'assign_array'),
+                             ('{%- if type.inner_type is not UnionType -%}', '{%- for f in type.fields_except_padding %} @property', 'constructor'),
+                             ('@{{ f|id }}.setter', '{% endfor -%}', 'setter')):
+        i = rest_text.find(start)
+        j = rest_text.find(end, i + len(start))
+        rest_text = rest_text[:i + len(start)] + ' <<scanned: %s>> ' % name + rest_text[j:]
+    facts['_rest'] = rest_text
     return facts
 
 
 ORDER = ['t_int_check', 't_float_check', 't_float_nonfinite_ok', 't_float_check_below', 't_cmp_fixed', 't_cmp_var', 't_len_bytes',
          't_len_nd', 't_len_slow', 't_bytes_max_w', 't_comp_isinstance', 't_union_clear_others', 't_union_clear_after',
-         't_union_ctor_count', 't_arr_precheck']
+         't_union_ctor_count', 't_arr_precheck', 't_precheck_nd_only', 't_text_guard']
 
 
 def gen_pyobj() -> typing.Tuple[bool, str]:
@@ -313,6 +390,23 @@ def gen_pyobj() -> typing.Tuple[bool, str]:
     if missing:
         gen.write_if_changed(OUT, gen.HEADER % BASE_J2 + '(* translator failed closed: facts missing %s *)\n' % missing)
         return False, 'failed closed: facts missing %r' % missing
+    # every line of base.j2 outside the three scanned regions must equal the pinned text (tools/translators/pins/c18_basej2_rest.txt:
+    # header, imports, annotation macros, printable_field_representation, class head, constants, __init__ signature and docstring,
+    # deprecation warning, getters, _serialize_/_deserialize_ wrappers (C01/C02 own their bodies), __repr__, _FIXED_PORT_ID_,
+    # _EXTENT_BYTES_, _MODEL_, _restore_constant_, {% block contents %}); update with `python -m tools.translators.gen_c18 --pin-rest`
+    pin_path = os.path.join(os.path.dirname(os.path.abspath(__file__)), 'pins', 'c18_basej2_rest.txt')
+    try:
+        pinned_rest = open(pin_path, encoding='utf-8').read()
+    except OSError:
+        pinned_rest = None
+    if pinned_rest is None or pinned_rest.strip() != facts['_rest'].strip():
+        gen.write_if_changed(OUT, gen.HEADER % BASE_J2 + '(* translator failed closed: base.j2 changed outside the scanned regions *)\n')
+        where = ''
+        if pinned_rest is not None:
+            a, b_ = pinned_rest.strip(), facts['_rest'].strip()
+            k = next((i for i in range(min(len(a), len(b_))) if a[i] != b_[i]), min(len(a), len(b_)))
+            where = ': first difference near %r' % b_[max(0, k - 40):k + 60]
+        return False, 'failed closed: base.j2 changed outside the scanned regions (pins/c18_basej2_rest.txt)' + where
     text = HEAD + pw_text + '\nDefinition tmpl_gen : tmpl := {|\n' + ';\n'.join('  %s := %s' % (k, facts[k]) for k in ORDER) + '\n|}.\n'
     text += ('\n(* true: assign_array stores whatever NumPy converted (F-PY-ARRELEM); false: every branch binds a local that is checked\n'
              '   against the element range (integers of non-standard width on all paths, finite float16/32 values on the\n'
@@ -367,3 +461,12 @@ def pin_c18support() -> typing.Tuple[bool, str]:
 
 
 GENERATORS = {'pyobj': gen_pyobj, 'pin_c18support': pin_c18support, 'pin_c18model': pin_c18model}
+
+
+if __name__ == '__main__':
+    import sys
+    if sys.argv[1:] == ['--pin-rest']:      # development time only: accept the current text outside the scanned regions
+        f_ = scan_template()
+        with open(os.path.join(os.path.dirname(os.path.abspath(__file__)), 'pins', 'c18_basej2_rest.txt'), 'w', encoding='utf-8') as fh:
+            fh.write(f_['_rest'].strip() + '\n')
+        print('pinned %d characters' % len(f_['_rest']))
